@@ -434,3 +434,24 @@ def same_bits(res, trace_a, trace_b, cfg_a, cfg_b, prop=None):
                                    "case": {"fam": "samebits", "trace_a": trace_a, "trace_b": trace_b}})
         else:
             raise
+
+
+def near_traces(res, trace_a, trace_b, cfg_a, cfg_b, prop=None):
+    """SIMD vs scalar builds: TLC accepts iff every recorded value agrees within the stated slack."""
+    out = os.path.join(WORK, res.prop, f"near.{cfg_a}.{cfg_b}.out")
+    n_a = sum(1 for _ in open(trace_a))
+    if n_a == 0:
+        raise ToolError(f"vacuity guard: empty trace {trace_a}")
+    try:
+        st = run_tlc("Trace_Near", res.tier, out, workers=1, env_extra={"TRACE_A": trace_a, "TRACE_B": trace_b},
+                     java_opts="-Xss1g -Xmx6g", timeout=1800)
+        res.add_tlc(st)
+        res.behaviours += 1
+        res.extra.setdefault("traces_compared_by_tlc", []).append({"a": cfg_a, "b": cfg_b, "events": n_a, "mode": "near"})
+    except ToolError:
+        txt = open(out, errors="replace").read()
+        if "SAMEBITS-REJECTED" in txt:
+            res.mismatches.append({"prop": prop or res.prop, "cfg": f"{cfg_a} vs {cfg_b}", "ty": "trace", "op": "values differ between backends beyond the re-association slack",
+                                   "what": txt[txt.find("SAMEBITS-REJECTED"):][:900], "case": {"fam": "near", "trace_a": trace_a, "trace_b": trace_b}})
+        else:
+            raise
